@@ -1,6 +1,6 @@
 (* C07 - Clones are faithful, self-contained and independent of the original. Property theorems only. *)
 From Coq Require Import List.
-From SV Require Import Base.Base IR.State IR.NS IR.Ops Xform.Clone Proofs.CloneSmall Proofs.C01_full Proofs.Inv1a Proofs.Inv2a Proofs.CloneFrame Proofs.CloneStart Proofs.NsInv Proofs.InvW Proofs.UniqInv Proofs.CloneFaith Proofs.CloneFull Proofs.CloneNetInv Proofs.CloneDefStruct.
+From SV Require Import Base.Base IR.State IR.NS IR.Ops Xform.Clone Proofs.CloneSmall Proofs.C01_full Proofs.Inv1a Proofs.Inv2a Proofs.CloneFrame Proofs.CloneStart Proofs.NsInv Proofs.InvW Proofs.UniqInv Proofs.CloneFaith Proofs.CloneFull Proofs.CloneNetInv Proofs.CloneDefStruct Proofs.CloneLibInv.
 Import ListNotations.
 
 (* cloning a wire: one fresh element, no pins listed, nothing else changes *)
@@ -80,6 +80,18 @@ Theorem C07_definition_clone_keeps_invariant : forall ops d,
   Inv (fst (fst (clone_definition s d))).
 Proof. exact clone_definition_reachable_inv. Qed.
 Print Assumptions C07_definition_clone_keeps_invariant.
+
+(* the same for Library.clone: in every state reachable by editing calls a completed clone of a library
+   leaves the whole structural invariant in force, with no further hypothesis: references of copied
+   instances to definitions of the library are redirected to the copies, references that leave the
+   library stay and the copied instances are registered with those outside definitions ("the
+   bookkeeping on shared definitions (their reference sets) updated exactly as documented"), and the
+   reference sets of the copied definitions keep only copies. *)
+Theorem C07_library_clone_keeps_invariant : forall ops l,
+  let s := run ops init in
+  kind_of s l = Some KLibrary -> snd (fst (clone_library s l)) = None -> Inv (fst (fst (clone_library s l))).
+Proof. exact clone_library_reachable_inv. Qed.
+Print Assumptions C07_library_clone_keeps_invariant.
 
 (* the same for Netlist.clone, the deep copy of a whole design: in every state reachable by editing
    calls, a completed clone of a netlist whose instances (the children of its definitions and its top
